@@ -7,7 +7,7 @@ macro_rules! val_as_arr {
     ($input:expr, |$arr:ident| $body:expr) => {
         match $input {
             Value::Num($arr) => $body,
-            Value::Box(n) => match *n {},
+            Value::Box(n) | Value::Complex(n) | Value::Char(n) | Value::Byte(n) => $crate::shim::absurd(n),
         }
     };
 }
